@@ -186,6 +186,7 @@ def check_c10(chk, args):
                     meta[cid] = desc
                     if N is not None and N <= ml and ml > 0:
                         chk.nontrivial((vi, N, out))
+    none_is_unlimited(chk)
     caselist = list(cases.values())
     can = []
     for c in caselist[:: max(1, len(caselist) // 20)][:20]:
@@ -219,6 +220,32 @@ def check_c10(chk, args):
     for c in caselist[:: max(1, len(caselist) // 5)][:5]:
         chk.sample(meta[c['id']])
     chk.stage('tlc.validate', prints=nprints, distinct=len(caselist), rejected=nrej, states=st['distinct'])
+
+
+def none_is_unlimited(chk):
+    """max_seq_len=None must not truncate whatever the DEFAULT limit is: containers longer than the
+    stock default (1000), and short containers after set_default_config(max_seq_len=1)."""
+    big = [list(range(1003)), tuple(range(1001)), {i: i for i in range(1002)}, set(range(1001)), [[0] * 1001, 'x']]
+    for v in big:
+        desc = {'value': '%s of %d elements' % (type(v).__name__, len(v)), 'config': {'max_seq_len': None}}
+        out = safe_print(chk, 'C10', v, desc, max_seq_len=None, width=79)
+        ref = safe_print(chk, 'C10', v, dict(desc), max_seq_len=5000, width=79)
+        chk.cov['evaluations'] += 2
+        if out is not None and ref is not None and (out != ref or 'more elements' in out):
+            chk.violation('C10.none', 'max_seq_len=None truncated a %s of %d elements (or differs from max_seq_len=5000)'
+                          % (type(v).__name__, len(v)), desc)
+    saved = P._default_config
+    try:
+        P.set_default_config(max_seq_len=1)
+        for v in ([1, 2, 3], {'a': [1, 2], 'b': (3, 4, 5)}, (1, {2, 3})):
+            desc = {'value': repr(v), 'config': {'max_seq_len': None, 'default max_seq_len': 1}}
+            out = safe_print(chk, 'C10', v, desc, max_seq_len=None, width=79)
+            ref = safe_print(chk, 'C10', v, dict(desc), max_seq_len=10, width=79)
+            chk.cov['evaluations'] += 2
+            if out is not None and ref is not None and (out != ref or 'more elements' in out):
+                chk.violation('C10.none', 'an explicit max_seq_len=None fell back to the default limit 1: %r' % (out,), desc)
+    finally:
+        P._default_config = saved
 
 
 # ---------------------------------------------------------------------------
